@@ -572,3 +572,83 @@ Proof.
       * unfold on_paused. destruct (c_mod rc =? 0); ext_auto.
       * unfold on_paused. destruct (c_mod rc =? 0); reflexivity.
 Qed.
+
+(* ------------------------------------------------------------------ *)
+(* EndBlock phases, steps, reachable states *)
+
+Lemma T_init cfg h0 t0 f : T cfg (init h0 t0 f).
+Proof.
+  split.
+  - intros r p c f' Hin. destruct Hin.
+  - intros r. unfold init. cbn [reqs log get tr filter ShR]. now left.
+Qed.
+
+Lemma T_tick cfg s h t : T cfg s -> T cfg (set_time (set_height s h) t).
+Proof. intros H. exact H. Qed.
+
+Lemma fold_expire_phase_T cfg l s :
+  wf_cfg cfg -> Inv cfg s -> T cfg s -> height s < HEIGHT_BOUND -> NoDup l ->
+  (forall c, In c l -> In (height s, c) (expq s)) ->
+  T cfg (fold_left (expire_one cfg) l s).
+Proof.
+  intros Hcfg. revert s. induction l as [|a l IH]; intros s Hi HT Hb Hn Hl; cbn [fold_left]; [assumption|].
+  inversion Hn as [|? ? Hna Hn']; subst.
+  assert (Hda : In (height s, a) (expq s)) by (apply Hl; now left).
+  pose proof (Inv_expire_one cfg s a Hcfg Hi Hda Hb) as Hi1.
+  pose proof (height_expire_one cfg s a Hcfg Hi Hda Hb) as Eh.
+  pose proof (expq_after_expire_one cfg s a Hcfg Hi Hda Hb) as Eq.
+  apply IH; try assumption.
+  - now apply T_expire_one.
+  - now rewrite Eh.
+  - intros c Hc. rewrite Eh. apply Eq. split; [apply Hl; now right|]. intros ->. contradiction.
+Qed.
+
+Lemma fold_new_phase_T cfg l s :
+  wf_cfg cfg -> Inv cfg s -> T cfg s -> height s < HEIGHT_BOUND -> NoDup l ->
+  (forall c, In c l -> In (height s, c) (newq s)) ->
+  T cfg (fold_left (new_one cfg) l s).
+Proof.
+  intros Hcfg. revert s. induction l as [|a l IH]; intros s Hi HT Hb Hn Hl; cbn [fold_left]; [assumption|].
+  inversion Hn as [|? ? Hna Hn']; subst.
+  assert (Hda : In (height s, a) (newq s)) by (apply Hl; now left).
+  pose proof (Inv_new_one cfg s a Hcfg Hi Hda Hb) as Hi1.
+  pose proof (height_new_one cfg s a Hcfg Hi Hda Hb) as Eh.
+  pose proof (newq_after_new_one cfg s a Hcfg Hi Hda Hb) as Eq.
+  apply IH; try assumption.
+  - now apply T_new_one.
+  - now rewrite Eh.
+  - intros c Hc. rewrite Eh. apply Eq. split; [apply Hl; now right|]. intros ->. contradiction.
+Qed.
+
+Theorem T_end_block cfg s dt :
+  wf_cfg cfg -> Inv cfg s -> T cfg s -> height s < HEIGHT_BOUND -> T cfg (end_block cfg s dt).
+Proof.
+  intros Hcfg Hi HT Hb. unfold end_block, end_blocker.
+  set (l1 := due (expq s) (height s)).
+  assert (Hn1 : NoDup l1) by (apply NoDup_due; apply (inv_wf _ _ Hi)).
+  assert (Hl1 : forall c, In c l1 -> In (height s, c) (expq s)) by (intros c; apply In_due).
+  destruct (fold_expire_phase cfg l1 s Hcfg Hi Hb Hn1 Hl1) as (I1 & H1 & _).
+  pose proof (fold_expire_phase_T cfg l1 s Hcfg Hi HT Hb Hn1 Hl1) as T1.
+  set (s1 := fold_left (expire_one cfg) l1 s) in *.
+  set (l2 := due (newq s1) (height s1)).
+  assert (Hn2 : NoDup l2) by (apply NoDup_due; apply (inv_wf _ _ I1)).
+  assert (Hl2 : forall c, In c l2 -> In (height s1, c) (newq s1)) by (intros c; apply In_due).
+  assert (Hb1 : height s1 < HEIGHT_BOUND) by now rewrite H1.
+  pose proof (fold_new_phase_T cfg l2 s1 Hcfg I1 T1 Hb1 Hn2 Hl2) as T2.
+  apply T_tick. exact T2.
+Qed.
+
+Theorem T_step cfg s o :
+  wf_cfg cfg -> Inv cfg s -> T cfg s -> wf_op s o -> T cfg (fst (step cfg s o)).
+Proof.
+  intros Hcfg Hi HT Ho. unfold step. destruct (handle cfg s o) as [s'| |] eqn:E; cbn [fst]; try assumption.
+  destruct o; try (eapply T_msg; [exact Hcfg|exact Hi|exact HT|exact Ho|discriminate|exact E]).
+  cbn [handle] in E. injection E as <-. cbn [wf_op] in Ho. destruct Ho. now apply T_end_block.
+Qed.
+
+Theorem Reach_T cfg s : wf_cfg cfg -> Reach cfg s -> T cfg s.
+Proof.
+  intros Hcfg H. induction H as [h0 t0 f H1 H2 H3|s o H IH Ho].
+  - apply T_init.
+  - apply T_step; try assumption. now apply Reach_Inv.
+Qed.
